@@ -500,7 +500,7 @@ fn brief(a: &Answer) -> String {
         Err(e) => format!("Err({e})"),
     };
     if s.len() > 700 {
-        format!("{}…[{} bytes]", &s[..700], s.len())
+        format!("{}…[{} bytes]", s.chars().take(700).collect::<String>(), s.len())
     } else {
         s
     }
